@@ -16,7 +16,16 @@ import (
 	"github.com/bfenetworks/bfe/bfe_config/bfe_tls_conf/session_ticket_key_conf"
 	"github.com/bfenetworks/bfe/bfe_config/bfe_tls_conf/tls_rule_conf"
 	"github.com/bfenetworks/bfe/bfe_modules/mod_auth_basic"
+	"github.com/bfenetworks/bfe/bfe_config/bfe_tls_conf/server_cert_conf"
 	"github.com/bfenetworks/bfe/bfe_modules/mod_auth_jwt"
+	"github.com/bfenetworks/bfe/bfe_modules/mod_auth_request"
+	"github.com/bfenetworks/bfe/bfe_modules/mod_errors"
+	"github.com/bfenetworks/bfe/bfe_modules/mod_key_log"
+	"github.com/bfenetworks/bfe/bfe_modules/mod_markdown"
+	"github.com/bfenetworks/bfe/bfe_modules/mod_tag"
+	"github.com/bfenetworks/bfe/bfe_modules/mod_trace"
+	"github.com/bfenetworks/bfe/bfe_modules/mod_userid"
+	"github.com/bfenetworks/bfe/bfe_modules/mod_waf"
 	"github.com/bfenetworks/bfe/bfe_modules/mod_block"
 	"github.com/bfenetworks/bfe/bfe_modules/mod_compress"
 	"github.com/bfenetworks/bfe/bfe_modules/mod_cors"
@@ -157,7 +166,124 @@ func execBal(body string) string {
 	return "ok " + strings.Join(out, ",")
 }
 
+// ---- conf: every sample configuration shipped under <repo>/conf, loaded from the tree through its real loader -----
+
+func e1(err error) error { return err }
+
+// confLoaders: relative path under conf/ -> loader (the file list itself is read from the tree at run time)
+var confLoaders = map[string]func(f, confRoot string) error{
+	"server_data_conf/host_rule.data":     func(f, _ string) error { _, e := host_rule_conf.HostRuleConfLoad(f); return e },
+	"server_data_conf/vip_rule.data":      func(f, _ string) error { _, e := vip_rule_conf.VipRuleConfLoad(f); return e },
+	"server_data_conf/route_rule.data":    func(f, _ string) error { _, e := route_rule_conf.RouteConfLoad(f); return e },
+	"server_data_conf/cluster_conf.data":  func(f, _ string) error { _, e := cluster_conf.ClusterConfLoad(f); return e },
+	"server_data_conf/name_conf.data":     func(f, _ string) error { return bns.LoadLocalNameConf(f) },
+	"cluster_conf/gslb.data":              func(f, _ string) error { _, e := gslb_conf.GslbConfLoad(f); return e },
+	"cluster_conf/cluster_table.data":     func(f, _ string) error { _, e := cluster_table_conf.ClusterTableLoad(f); return e },
+	"tls_conf/tls_rule_conf.data":         func(f, _ string) error { _, e := tls_rule_conf.TlsRuleConfLoad(f); return e },
+	"tls_conf/session_ticket_key.data":    func(f, _ string) error { _, e := session_ticket_key_conf.SessionTicketKeyConfLoad(f); return e },
+	"tls_conf/server_cert_conf.data":      func(f, root string) error { _, e := server_cert_conf.ServerCertConfLoad(f, root); return e },
+	"mod_auth_basic/auth_basic_rule.data": func(f, _ string) error { _, e := mod_auth_basic.AuthBasicConfLoad(f); return e },
+	"mod_auth_jwt/auth_jwt_rule.data":     func(f, _ string) error { _, e := mod_auth_jwt.AuthJWTConfLoad(f); return e },
+	"mod_auth_request/auth_request_rule.data": func(f, _ string) error { _, e := mod_auth_request.AuthRequestRuleFileLoad(f); return e },
+	"mod_block/block_rules.data":          func(f, _ string) error { _, e := mod_block.ProductRuleConfLoad(f); return e },
+	"mod_block/ip_blocklist.data":         func(f, _ string) error { _, e := mod_block.GlobalIPTableLoad(f); return e },
+	"mod_compress/compress_rule.data":     func(f, _ string) error { _, e := mod_compress.ProductRuleConfLoad(f); return e },
+	"mod_cors/cors_rule.data":             func(f, _ string) error { _, e := mod_cors.CorsRuleFileLoad(f); return e },
+	"mod_errors/errors_rule.data":         func(f, _ string) error { _, e := mod_errors.ErrorsConfLoad(f); return e },
+	"mod_header/header_rule.data":         func(f, _ string) error { _, e := mod_header.HeaderConfLoad(f); return e },
+	"mod_key_log/key_log.data":            func(f, _ string) error { return mod_key_log.VerifC13KeyLogConfLoad(f) },
+	"mod_markdown/mod_markdown.data":      func(f, _ string) error { _, e := mod_markdown.ProductRuleConfLoad(f); return e },
+	"mod_prison/prison.data":              func(f, _ string) error { return mod_prison.VerifC13ProductRuleConfLoad(f) },
+	"mod_redirect/redirect.data":          func(f, _ string) error { return mod_redirect.VerifC13RedirectConfLoad(f) },
+	"mod_rewrite/rewrite.data":            func(f, _ string) error { _, e := mod_rewrite.ReWriteConfLoad(f); return e },
+	"mod_static/mime_type.data":           func(f, _ string) error { _, e := mod_static.MimeTypeConfLoad(f); return e },
+	"mod_static/static_rule.data":         func(f, _ string) error { _, e := mod_static.StaticConfLoad(f); return e },
+	"mod_tag/tag_rule.data":               func(f, _ string) error { _, e := mod_tag.TagRuleFileLoad(f); return e },
+	"mod_trace/trace_rule.data":           func(f, _ string) error { _, e := mod_trace.TraceRuleFileLoad(f); return e },
+	"mod_trust_clientip/trust_client_ip.data": func(f, _ string) error { _, e := mod_trust_clientip.TrustIPConfLoad(f); return e },
+	"mod_userid/userid_rule.data":         func(f, _ string) error { _, e := mod_userid.NewConfigFromFile(f); return e },
+	"mod_waf/waf_rule.data":               func(f, _ string) error { _, e := mod_waf.ProductWafRuleConfLoad(f); return e },
+}
+
+func confRoot() string { return filepath.Join(bfe_route.VerifC13RepoRoot(), "conf") }
+
+// confFiles lists conf/**/*.data of the tree the harness was built from, sorted.
+func confFiles() []string {
+	var out []string
+	root := confRoot()
+	filepath.Walk(root, func(p string, info os.FileInfo, err error) error {
+		if err == nil && !info.IsDir() && strings.HasSuffix(p, ".data") {
+			rel, _ := filepath.Rel(root, p)
+			out = append(out, filepath.ToSlash(rel))
+		}
+		return nil
+	})
+	sort.Strings(out)
+	return out
+}
+
+// execConf loads the shipped file in place; relative paths inside sample files are relative to bfe's bin directory,
+// i.e. "../conf/…": the process runs in <repo>/conf (any sibling of conf's parent works for "../conf").
+func execConf(rel string) string {
+	root0 := confRoot()
+	switch rel {
+	case "@server_data": // the four server_data_conf samples together, with the cross-file check
+		d := filepath.Join(root0, "server_data_conf")
+		if _, err := bfe_route.LoadServerDataConf(filepath.Join(d, "host_rule.data"), filepath.Join(d, "vip_rule.data"),
+			filepath.Join(d, "route_rule.data"), filepath.Join(d, "cluster_conf.data")); err != nil {
+			return "err"
+		}
+		return "ok"
+	case "@baltable": // gslb.data + cluster_table.data through BalTable.Init
+		d := filepath.Join(root0, "cluster_conf")
+		if err := bfe_balance.NewBalTable(nil).Init(filepath.Join(d, "gslb.data"), filepath.Join(d, "cluster_table.data")); err != nil {
+			return "err"
+		}
+		return "ok"
+	}
+	ld, ok := confLoaders[rel]
+	if !ok {
+		return "no-loader"
+	}
+	root := confRoot()
+	old, _ := os.Getwd()
+	os.Chdir(root)
+	defer os.Chdir(old)
+	sideReady = false // the working directory of the mod / moddoc ops is re-established lazily
+	if err := ld(filepath.Join(root, filepath.FromSlash(rel)), root); err != nil {
+		return "err"
+	}
+	return "ok"
+}
+
+// exec runs the order-sensitive single-file kinds several times (Go ranges over the decoded maps in a new random order
+// each time): differing outcomes are reported as a set `a|b`.
 func exec(op string) string {
+	i := strings.IndexByte(op, ' ')
+	if i > 0 {
+		switch op[:i] {
+		case "vip", "route", "cc", "gslb", "ct", "name", "bal":
+			seen := map[string]bool{}
+			for k := 0; k < 6; k++ {
+				seen[exec1(op)] = true
+			}
+			if len(seen) == 1 {
+				for r := range seen {
+					return r
+				}
+			}
+			var out []string
+			for r := range seen {
+				out = append(out, r)
+			}
+			sort.Strings(out)
+			return strings.Join(out, "|")
+		}
+	}
+	return exec1(op)
+}
+
+func exec1(op string) string {
 	i := strings.IndexByte(op, ' ')
 	if i < 0 {
 		return "bad-op"
@@ -184,6 +310,8 @@ func exec(op string) string {
 			return "bad-op"
 		}
 		return execMod(body[:j], body[j+1:])
+	case "conf":
+		return execConf(body)
 	case "moddoc":
 		ex, ok := examples[body]
 		if !ok {
@@ -939,6 +1067,11 @@ func main() {
 		for _, n := range modNames {
 			emit("moddoc " + n)
 		}
+		for _, f := range confFiles() {
+			emit("conf " + f)
+		}
+		emit("conf @server_data")
+		emit("conf @baltable")
 	}
 	defer func() {
 		if tmpDir != "" {
